@@ -97,6 +97,8 @@ Definition known_order (o : bytes) : bool :=
 
 Definition check_field (p : pfield) : option nat :=
   if negb (known_order (pf_order p)) then Some (pf_ooff p)                 (* unknown order *)
+  else if beq (pf_order p) ord_fixed && match pf_fixed p with [] => true | _ => false end
+  then Some (pf_ooff p)               (* key@fixed: the order name without a value list, "nothing to match" *)
   else if beq (pf_key p) key_config then
     if beq (pf_order p) ord_fixed then Some (pf_ooff p) else None          (* fixed order not allowed for .config *)
   else if beq (pf_key p) (bs ".fullname") then None
